@@ -80,10 +80,142 @@ def check_resolution(run, cases, results, relation="Deps.resolve_tests_dependenc
         run.tie_broken(relation, detail="%d of %d cases differ (first: case %d)" % (len(bad), len(terms), bad[0]))
 
 
+# ----------------------------------------------------------------------------- declared dependencies (paths and predicates)
+NORM_HEADER = """From Coq Require Import List Arith Bool.
+Import ListNotations.
+From LCC Require Import Base.Util Model.Proj Model.Fixture Model.Deps Model.DepsPred.
+Definition lp_eqb (a b : list path) : bool := list_eqb path_eqb a b.
+Definition agrees (c : path * list path * list ddep * (list path * bool)) : bool :=
+  let '(self, keys, decl, (want, err)) := c in
+  let '(got, e) := walk self keys decl in lp_eqb got want && Bool.eqb e err.
+"""
+
+
+def gen_forest(rng):
+    """A small forest of real Suite / Test objects with unique test paths; returns (suites, [tests in declaration order])."""
+    from lemoncheesecake.suite import Suite, Test
+    counter = [10]
+
+    def fresh(prefix):
+        counter[0] += 1
+        return "%s%d" % (prefix, counter[0])
+
+    def suite(depth):
+        n = fresh("s")
+        s = Suite(None, n, "desc " + n)
+        for _ in range(rng.randint(0 if depth else 1, 3)):
+            n = fresh("t")
+            s.add_test(Test(n, "desc " + n, lambda: None))
+        if depth < 2:
+            for _ in range(rng.choice([0, 0, 1, 2])):
+                s.add_suite(suite(depth + 1))
+        return s
+    return [suite(0) for _ in range(rng.randint(1, 3))]
+
+
+def check_normalize(run):
+    """suite/core.py:_normalize_test_dependencies run on random declared dependencies (paths, unknown paths, predicates true of
+    several tests, of the depending test, of no test) against Model.DepsPred.walk."""
+    import lib
+    import projcoq
+    from lemoncheesecake.suite import core
+    from lemoncheesecake.testtree import flatten_tests_as_dict
+    from lemoncheesecake.exceptions import ValidationError
+    n = 250 if run.tier == "quick" else 6000
+    rows = []
+    for i in range(n):
+        suites = gen_forest(run.rng)
+        all_tests = flatten_tests_as_dict(suites)
+        keys = list(all_tests.keys())
+        if not keys:
+            continue
+        self_path = run.rng.choice(keys)
+        test = all_tests[self_path]
+        decl, real = [], []
+        for _ in range(run.rng.randint(0, 4)):
+            k = run.rng.random()
+            if k < 0.35:
+                p = run.rng.choice(keys)
+                decl.append(("path", p)); real.append(p)
+            elif k < 0.45:
+                p = run.rng.choice(["s1.t1", "t999", self_path + "9", keys[0].split(".")[0]])
+                decl.append(("path", p)); real.append(p)
+            else:
+                ext = [p for p in keys if run.rng.random() < 0.4]
+                if run.rng.random() < 0.5:
+                    ext.append(self_path)
+                if run.rng.random() < 0.2:
+                    ext.append("s1.t1")
+                run.rng.shuffle(ext)
+                decl.append(("pred", ext))
+                style = run.rng.randint(0, 2)
+                if style == 0:
+                    real.append(lambda t, ext=tuple(ext): t.path in ext)
+                elif style == 1:                      # a predicate over the object identity of the designated tests
+                    objs = [all_tests[p] for p in ext if p in all_tests]
+                    real.append(lambda t, objs=objs: any(t is o for o in objs))
+                else:                                 # a callable object
+                    class P(object):
+                        def __init__(self, ext):
+                            self.ext = set(ext)
+
+                        def __call__(self, t):
+                            return t.path in self.ext
+                    real.append(P(ext))
+        test.dependencies = real
+        got, err = [], False
+        try:
+            for d in core._normalize_test_dependencies(test, all_tests):
+                got.append(d.path)
+        except ValidationError as e:
+            err = True
+            if "Cannot find dependency test" not in str(e):
+                run.violation("oracle:normalize-error-text", "unexpected error %r" % str(e), {"decl": decl, "self": self_path})
+        run.evaluations += 1
+        run.count("normalize_cases")
+        run.count("normalize:%s" % ("error" if err else "ok"))
+        preds = [d for d in decl if d[0] == "pred"]
+        if any(len([p for p in d[1] if p in all_tests and p != self_path]) >= 2 for d in preds):
+            run.count("normalize_predicate_designating_several_tests")
+            run.nontrivial.add("norm%d" % i)
+        if any(self_path in d[1] for d in preds):
+            run.count("normalize_predicate_true_of_the_depending_test")
+        # the property itself, evaluated on what the implementation yielded
+        if self_path in got and ("path", self_path) not in decl:
+            run.violation("oracle:predicate-self-dependency", "%s depends on itself through a predicate" % self_path,
+                          {"decl": decl, "self": self_path, "keys": keys, "yielded": got})
+        for d in preds:
+            want = [p for p in keys if p != self_path and p in d[1]]
+            if not err and not _is_subsequence(want, got):
+                run.violation("oracle:predicate-designation", "predicate over %r of %s: the tests %r are not yielded in project order (%r)"
+                              % (d[1], self_path, want, got), {"decl": decl, "self": self_path, "keys": keys, "yielded": got})
+        c_decl = lib.c_list(decl, lambda d: "DPath %s" % projcoq.c_pathstr(d[1]) if d[0] == "path"
+                            else "DPred %s" % lib.c_list(d[1], projcoq.c_pathstr))
+        rows.append(("(%s, %s, %s, (%s, %s))" % (projcoq.c_pathstr(self_path), lib.c_list(keys, projcoq.c_pathstr), c_decl,
+                                                 lib.c_list(got, projcoq.c_pathstr), lib.c_bool(err)),
+                     {"self": self_path, "keys": keys, "decl": decl, "yielded": got, "raised": err}))
+    if not run.model_ok or not rows:
+        return
+    text = NORM_HEADER + "Definition cases : list (path * list path * list ddep * (list path * bool)) := [\n%s ].\n" % ";\n".join(
+        r[0] for r in rows) + "Eval vm_compute in (find_indexes (fun c => negb (agrees c)) cases).\n"
+    rc, out = run.coq_eval("normalize", text)
+    bad = lib.parse_nat_list(out) if rc == 0 else None
+    relation = "DepsPred.walk = what _normalize_test_dependencies yields (paths and predicates)"
+    if bad is None:
+        run.tie_broken(relation, detail="case file did not evaluate: " + out[-1200:])
+    for idx in (bad or [])[:2]:
+        run.tie_broken(relation, case=rows[idx][1])
+
+
+def _is_subsequence(a, b):
+    it = iter(b)
+    return all(x in it for x in a)
+
+
 def check(run):
     run.trusted += engine.TRUSTED
-    run.assume += engine.ASSUME + ["depends_on in path form (predicate dependencies are normalised to paths by the same resolution code)"]
-    run.prove(extra_targets=engine.TARGETS + ["theories/Model/Deps.vo"])
+    run.assume += engine.ASSUME + ["a predicate dependency is modelled by its extension over the test paths of the project (Model/DepsPred.v), and its path form is what Model/Deps.v and Model/Graph.v receive"]
+    run.prove(extra_targets=engine.TARGETS + ["theories/Model/Deps.vo", "theories/Model/DepsPred.vo"])
     n_valid, n_bad = (140, 70) if run.tier == "quick" else (4000, 2000)
     cases = engine.gen_cases(run, n_valid, profile=PROFILE, threads=(1, 2, 3, 4) if run.tier == "quick" else (1, 2, 3, 4, 6, 8), prefix="d")
     # a third of the valid cases also filter out tests nobody depends on
@@ -115,6 +247,7 @@ def check(run):
         return sum(1 for d in direct.values() if d) >= 2
     results = propcommon.run_cases(run, cases, runoracle.c04_oracle, nontrivial)
     check_resolution(run, cases, results)
+    check_normalize(run)
     # a dependency that neither succeeded nor failed: its body left through a BaseException (sys.exit()); its task ends with an
     # exception result and everything that depends on it -- over any number of hops -- must be skipped all the same
     base = engine.gen_cases(run, 30 if run.tier == "quick" else 500,
